@@ -268,7 +268,7 @@ def to_sympy(tree, syms):
 
 class Reference:
     FD_H = 1e-3
-    FD_RTOL = 1e-6
+    FD_RTOL = 1e-5
 
     def __init__(self, varspec):
         import sympy as sp
